@@ -19,12 +19,12 @@ CONSTANTS
                 \* <<cell, part>> -> [cap : [cpu, memory, disk], limits : trait -> [cpu, memory, disk]]
   PartNames,    \* partitions a request may name
   TraitSets,    \* trait sets a request may carry in its traits field
-  CpuSp, MemSp, DiskSp,   \* spellings a request may use
+  Quantities,   \* spelled demands [cpu, memory, disk] a request may carry
   MaxSteps
 
-VARIABLES st, last, fit, n
+VARIABLES st, last, n
 
-vars == <<st, last, fit, n>>
+vars == <<st, last, n>>
 
 (* MaxSteps < 0: unbounded (exhaustive runs; the reachable set is finite);  *)
 (* MaxSteps >= 0: histories of exactly that many requests (generation)      *)
@@ -38,35 +38,30 @@ TableVal(tb) == [k \in DOMAIN tb |-> PartVal(tb[k])]
 
 (* requests.  An Update never carries an explicitly EMPTY traits list (what  *)
 (* the directory keeps in that case is outside this model, see notes).      *)
-Quantities == [cpu : CpuSp, memory : MemSp, disk : DiskSp]
 Req(part, tg, traits, qq) ==
   [part |-> part, tg |-> tg, traits |-> traits,
    cpu |-> qq.cpu, memory |-> qq.memory, disk |-> qq.disk]
-CreateReqs == {Req(p, tg, ts, qq) : p \in PartNames, tg \in BOOLEAN, ts \in TraitSets, qq \in Quantities}
-WellFormed(r) == r.tg \/ r.traits = {}
+Reqs == {Req(p, FALSE, {}, qq) : p \in PartNames, qq \in Quantities}
+        \cup {Req(p, TRUE, ts, qq) : p \in PartNames, ts \in TraitSets, qq \in Quantities}
 
 Init == /\ st \in {[parts |-> TableVal(tb), res |-> [j \in {} |-> 0]] : tb \in PartTables}
         /\ last = "none"
-        /\ fit = TRUE
         /\ n = 0
 
 Submit(id, r) ==
   LET out == Outcome(st, id, r) IN
-  /\ last' = out
-  /\ fit' = Fits(st, id, r)
+  /\ last' = (IF out = "crash" THEN "crash" ELSE "none")
   /\ st' = After(st, id, r, out)
   /\ n' = Tick
 
 Create(id, r) ==
   /\ Budget
   /\ id \notin Present(st)
-  /\ WellFormed(r)
   /\ Submit(id, r)
 
 Update(id, r) ==
   /\ Budget
   /\ id \in Present(st)
-  /\ WellFormed(r)
   /\ (r.tg => r.traits # {})
   /\ Submit(id, r)
 
@@ -75,11 +70,10 @@ Delete(id) ==
   /\ id \in Present(st)
   /\ st' = Drop(st, id)
   /\ last' = "none"
-  /\ fit' = TRUE
   /\ n' = Tick
 
-Next == \/ \E id \in Ids, r \in CreateReqs : Create(id, r)
-        \/ \E id \in Ids, r \in CreateReqs : Update(id, r)
+Next == \/ \E id \in Ids, r \in Reqs : Create(id, r)
+        \/ \E id \in Ids, r \in Reqs : Update(id, r)
         \/ \E id \in Ids : Delete(id)
 
 Spec == Init /\ [][Next]_vars
@@ -87,6 +81,4 @@ Spec == Init /\ [][Next]_vars
 -----------------------------------------------------------------------------
 InvReserve == InvC19(st)
 InvNoCrash == last # "crash"
-(* the admission answer is exactly "fits" (what the Defects runs refute)     *)
-InvAnswer == last \in {"ok", "invalid"} => ((last = "ok") <=> fit)
 =============================================================================
